@@ -151,6 +151,29 @@ fn main() {
                     i = at + 3;
                 }
             }
+            // free functions defined anywhere in the file (candidates for shared helpers)
+            let mut defined_all: Vec<String> = vec![];
+            {
+                let mut i = 0;
+                while let Some(at) = find_from(&src, "fn ", i) {
+                    let prev_ok = at == 0 || !(src[at - 1].is_alphanumeric() || src[at - 1] == '_');
+                    let mut j = at + 3;
+                    let mut name = String::new();
+                    while j < src.len() && (src[j].is_alphanumeric() || src[j] == '_') {
+                        name.push(src[j]);
+                        j += 1;
+                    }
+                    if prev_ok && !name.is_empty() && !defined_all.contains(&name) {
+                        defined_all.push(name);
+                    }
+                    i = at + 3;
+                }
+            }
+            for d in &defined_all {
+                if !defined.contains(d) {
+                    defined.push(d.clone());
+                }
+            }
             // the three entry points plus, transitively, every helper function of the block that they call
             let mut wanted: Vec<String> = vec!["format_env_block".into(), "assemble_cmdline".into(), "append_quoted".into()];
             let mut done: Vec<String> = vec![];
@@ -158,7 +181,9 @@ fn main() {
                 if done.contains(&name) {
                     continue;
                 }
-                match extract_fn(&block, &name, 0) {
+                // helpers are looked up in the windows block first, then (shared helpers) in the whole file
+                let found = extract_fn(&block, &name, 0).or_else(|| if defined_all.contains(&name) { extract_fn(&src, &name, 0) } else { None });
+                match found {
                     Some(body) => {
                         for d in &defined {
                             if !done.contains(d) && !wanted.contains(d) && *d != name {
